@@ -64,7 +64,7 @@ def run_pynguin(project_dir: str, module: str, out_dir: str, *, seed: int, algor
             proc.wait()
             rc = None
     log = open(logp, errors="replace").read()
-    tf = os.path.join(out_dir, f"test_{module.replace('.', '_')}.py")
+    tf = os.path.join(out_dir, f"test_{module.rsplit('.', 1)[-1]}.py")
     return PynguinRun(rc, log, tf if os.path.exists(tf) else None, time.time() - t0, timed_out)
 
 
